@@ -40,6 +40,26 @@ class TorchCalls(TorchOps):
             if extra or len(args) > 1 or (init is not None and self.const_int(init) != 0 and not (isinstance(init, Const) and init.v is None)):
                 return self.unk("accumulate with a custom function / initial value", node)
             return self.accumulate(args[0], node, initial=init is not None and not (isinstance(init, Const) and init.v is None))
+        if name.startswith("operator.") and not kwargs:
+            opn = name.split(".", 1)[1].rstrip("_")
+            binops = {"lshift": ast.LShift, "rshift": ast.RShift, "or": ast.BitOr, "and": ast.BitAnd, "xor": ast.BitXor, "add": ast.Add, "sub": ast.Sub, "mul": ast.Mult,
+                      "truediv": ast.Div, "floordiv": ast.FloorDiv, "mod": ast.Mod, "matmul": ast.MatMult, "pow": ast.Pow,
+                      "iadd": ast.Add, "ior": ast.BitOr, "iand": ast.BitAnd, "isub": ast.Sub, "imul": ast.Mult}
+            cmps = {"eq": ast.Eq, "ne": ast.NotEq, "lt": ast.Lt, "le": ast.LtE, "gt": ast.Gt, "ge": ast.GtE, "is": ast.Is, "is_not": ast.IsNot}
+            full = name.split(".", 1)[1]
+            if opn in binops and len(args) == 2 and not full.startswith("i"):
+                return self.interp.binop(args[0], binops[opn](), args[1], node, env)
+            if full in cmps and len(args) == 2:
+                return self.compare(args[0], cmps[full](), args[1], node, env)
+            if full == "not_" and len(args) == 1:
+                return self.unary(ast.Not(), args[0], node, env)
+            if full == "neg" and len(args) == 1:
+                return self.unary(ast.USub(), args[0], node, env)
+            if full == "getitem" and len(args) == 2:
+                return self.subscript(args[0], ("index", args[1]), node, env)
+            if full == "contains" and len(args) == 2:
+                return self.contains(args[0], args[1], False, node)
+            return self.unk(f"operator function {full}", node)
         if name == "functools.reduce" and 2 <= len(args) <= 3 and not kwargs:
             lst = self.to_list(args[1], "list", node)
             I = self.interp
@@ -90,11 +110,26 @@ class TorchCalls(TorchOps):
                     return self.unk("chain over a non-sequence", node)
                 out = part if out is None else self.concat_lists(out, part, node)
             return out if out is not None else ListV(items=())
+        if name == "itertools.starmap" and len(args) == 2 and not kwargs:
+            lst = self.to_list(args[1], "list", node)
+            I = self.interp
+            if isinstance(lst, ListV) and lst.items is not None:
+                out = []
+                for t in lst.items:
+                    tt = self.to_list(t, "tuple", node)
+                    if not (isinstance(tt, ListV) and tt.items is not None):
+                        return self.unk("starmap over non-tuples", node)
+                    out.append(I.call_value(args[0], list(tt.items), {}, node, env))
+                return ListV(items=tuple(out))
+            if isinstance(lst, ListV) and isinstance(lst.elem, ListV) and lst.elem.items is not None:
+                return ListV(items=None, elem=I.call_value(args[0], list(lst.elem.items), {}, node, env), kind="list", over=lst.over, order=lst.order)
+            return self.unk("starmap over this sequence", node)
         if name == "itertools.pairwise":
             lst = self.to_list(args[0], "list", node)
             if isinstance(lst, ListV) and lst.items is not None:
                 return ListV(items=tuple(ListV(items=(a, b), kind="tuple") for a, b in zip(lst.items, lst.items[1:])))
-            return self.unk("pairwise of abstract sequence", node)
+            r = self.pairwise_abstract(lst, node) if isinstance(lst, ListV) else None
+            return r if r is not None else self.unk("pairwise of abstract sequence", node)
         if name == "itertools.combinations":
             lst = self.to_list(args[0], "list", node)
             r = self.const_int(args[1]) if len(args) > 1 else None
@@ -291,12 +326,21 @@ class TorchCalls(TorchOps):
             return self.unk("next of an abstract iterator", node)
         if fn.endswith("Error") or fn == "Exception":
             return ExtV("exception." + fn)
-        if fn == "map":
+        if fn == "map" and len(args) >= 2 and not kwargs:
+            if len(args) > 2:
+                z = self.zip(list(args[1:]), node)
+                if isinstance(z, ListV) and z.items is not None:
+                    return ListV(items=tuple(I.call_value(args[0], list(t.items), {}, node, env) for t in z.items))
+                if isinstance(z, ListV) and isinstance(z.elem, ListV) and z.elem.items is not None:
+                    return ListV(items=None, elem=I.call_value(args[0], list(z.elem.items), {}, node, env), kind="list", over=z.over, order=z.order)
+                return self.unk("map over these sequences", node)
             lst = self.to_list(args[1], "list", node)
             if isinstance(lst, ListV):
                 if lst.items is not None:
                     return ListV(items=tuple(I.call_value(args[0], [x], {}, node, env) for x in lst.items))
-                return replace(lst, elem=I.call_value(args[0], [lst.elem], {}, node, env))
+                if lst.elem is None:
+                    return ListV(items=())
+                return replace(lst, elem=I.call_value(args[0], [lst.elem], {}, node, env), head=None, tail=(), tail_elem=None)
         if fn == "divmod":
             return ListV(items=(self.binary(args[0], ast.FloorDiv(), args[1], node, env), self.binary(args[0], ast.Mod(), args[1], node, env)), kind="tuple")
         return self.unk(f"builtin {fn}", node)
@@ -458,6 +502,9 @@ class TorchCalls(TorchOps):
             return DictV(items=None, keys=lst, val=val, ordered=True)
         return self.unk("fromkeys", node)
 
+    def pairwise_abstract(self, lst, node):
+        return None
+
     def flatten_once(self, v, node):
         """Concatenation of the members of a sequence of sequences."""
         outer = self.to_list(v, "list", node)
@@ -522,6 +569,21 @@ class TorchCalls(TorchOps):
         if isinstance(recv, MetaV):
             return recv
         t = tv_of(recv)
+        if t is not None and name in ("add_", "sub_") and args and env is not None and isinstance(node, ast.Call) and isinstance(node.func, ast.Attribute):
+            # X.diagonal().add_(v): in-place update of X through its diagonal view == X + v·I
+            rv = node.func.value
+            if isinstance(rv, ast.Call) and isinstance(rv.func, ast.Attribute) and rv.func.attr == "diagonal" and not rv.args and not rv.keywords \
+                    and isinstance(rv.func.value, ast.Name):
+                base = self.interp.eval(rv.func.value, env)
+                bt = tv_of(base)
+                if bt is not None and len(bt.axes) == 2:
+                    eye = self.call_lib("numpy." if bt.kind == "ndarray" else "torch.", "eye", [self.size_tv(bt, 0)], {}, rv, env)
+                    scaled = self.binary(args[0], ast.Mult(), eye, node, env)
+                    new = self.binary(base, ast.Add() if name == "add_" else ast.Sub(), scaled, node, env)
+                    if isinstance(new, TV):
+                        new = new.but(dtype=bt.dtype, alias=bt.alias)
+                    self.interp.rebind(rv.func.value, new, env, node)
+                    return t
         if t is not None:
             r = self.tensor_method(t, name, args, kwargs, node, env)
             if name.endswith("_") and not name.startswith("_") and isinstance(r, TV) and isinstance(node, ast.Call) and isinstance(node.func, ast.Attribute) \
@@ -555,6 +617,24 @@ class TorchCalls(TorchOps):
         return self.unk(f"method {name} of {obj.cls.name}", node)
 
     def ext_init(self, obj, cls, args, kwargs, node, env):
+        if any(b.split(".")[-1] == "NamedTuple" for b in cls.external_bases) or any("dataclass" in ast.unparse(d) for d in cls.node.decorator_list):
+            # typing.NamedTuple / @dataclass: fields are the annotated class attributes, in order; defaults are class-level values
+            fields = [(st.target.id, st.value) for st in cls.node.body if isinstance(st, ast.AnnAssign) and isinstance(st.target, ast.Name)]
+            vals = {}
+            for (fname, default), a in zip(fields, args):
+                vals[fname] = a
+            for k_, v_ in kwargs.items():
+                if k_ in dict(fields):
+                    vals[k_] = v_
+            for fname, default in fields:
+                if fname not in vals:
+                    if default is None:
+                        self.unk(f"missing field {fname} of {cls.name}", node)
+                        continue
+                    vals[fname] = self.interp.eval(default, Env(cls.module, None, None))
+            obj.fields.update(vals)
+            obj.tuple_fields = [f for f, _ in fields]
+            return None
         if any(b.endswith("dict") for b in cls.external_bases):
             src = args[0] if args else DictV(items=())
             obj.payload = src.payload if isinstance(src, ObjV) else (src if isinstance(src, DictV) else DictV())
@@ -605,6 +685,20 @@ class TorchCalls(TorchOps):
         if name in ("popleft", "pop"):
             e = lst.elem if lst.items is None else self.set_elem(SetV(items=lst.items))
             return e if e is not None else self.unk("pop from empty", node)
+        if name == "remove" and len(args) == 1:
+            # removes one (the first) occurrence: the remaining elements keep their relative order
+            if lst.items is not None and I.join_depth == 0:
+                for i_, x in enumerate(lst.items):
+                    if x == args[0] or (isinstance(x, Const) and isinstance(args[0], Const) and x.v == args[0].v):
+                        I.rebind(node.func.value, replace(lst, items=lst.items[:i_] + lst.items[i_ + 1:]), env, node)
+                        return NONE
+            e = lst.elem if lst.items is None else self.set_elem(SetV(items=lst.items))
+            order = lst.order
+            if order is not None:
+                order = (order[0], order[1] + "-1")
+            self.ev("list_remove", node, removed=repr(args[0])[:60])
+            I.rebind(node.func.value, ListV(items=None, elem=e, kind=lst.kind, order=order, over=None), env, node)
+            return NONE
         if name in ("index", "count"):
             return TV(kind="pyint")
         if name in ("copy",):
@@ -628,6 +722,10 @@ class TorchCalls(TorchOps):
 
     def dict_method(self, d: DictV, name, args, kwargs, node, env, owner=None):
         I = self.interp
+        if name == "__getitem__" and len(args) == 1:
+            return self.subscript(owner if owner is not None else d, ("index", args[0]), node, env)
+        if name == "__contains__" and len(args) == 1:
+            return self.contains(owner if owner is not None else d, args[0], False, node)
         if name == "keys":
             k = self.dict_keys(d)
             if isinstance(k, ListV):
